@@ -151,6 +151,16 @@ type Specs struct {
 	GhostVars  map[string]string // $name -> sort
 	Files      []string
 	Guarded    []string
+	LockGuards map[string]*LockGuard // key: pkgpath.Type
+}
+
+// LockGuard: `guard T by mu: f g h` - the maps held in fields f, g, h of a T (and the maps stored in
+// them) are read only while T.mu is held (either mode) and written only while it is write-held.
+type LockGuard struct {
+	Pkg, Type, Mutex string
+	Fields           map[string]bool
+	Props            []string
+	Src              string
 }
 
 func NewSpecs() *Specs {
@@ -217,6 +227,22 @@ func (sp *Specs) LoadSpecFile(path, pkgPath string) error {
 		case "props":
 			// default property set of the functions, lemmas and axioms that follow in this file
 			curProps = strings.Fields(rest)
+			cur = nil
+		case "guard":
+			// guard T by mu: f g h
+			hd := strings.SplitN(rest, ":", 2)
+			w := strings.Fields(hd[0])
+			if len(hd) != 2 || len(w) != 3 || w[1] != "by" {
+				return fail("guard T by mu: field field ...")
+			}
+			g := &LockGuard{Pkg: pkgPath, Type: w[0], Mutex: w[2], Fields: map[string]bool{}, Props: curProps, Src: rest}
+			for _, f := range strings.Fields(hd[1]) {
+				g.Fields[f] = true
+			}
+			if sp.LockGuards == nil {
+				sp.LockGuards = map[string]*LockGuard{}
+			}
+			sp.LockGuards[pkgPath+"."+w[0]] = g
 			cur = nil
 		case "func":
 			m := reFuncHdr.FindStringSubmatch(line)
@@ -692,6 +718,20 @@ func LoadAllSpecs(repo, specDir string, pkgDirs map[string]string) (*Specs, erro
 			}
 			if !ok {
 				return nil, fmt.Errorf("%s:%d: ensures[%s] of %s is restricted to %v, none of which includes the function (props %v): it would never be checked", cl.File, cl.Line, cl.Name, c.Key, cl.Props, c.Props)
+			}
+		}
+		for _, ac := range c.AtCalls {
+			if len(ac.Clause.Props) == 0 {
+				continue
+			}
+			ok := false
+			for _, p := range ac.Clause.Props {
+				if hasProp(c.Props, p) {
+					ok = true
+				}
+			}
+			if !ok {
+				return nil, fmt.Errorf("%s:%d: atcall assert[%s] of %s is restricted to %v, none of which includes the function (props %v): it would never be checked", ac.Clause.File, ac.Clause.Line, ac.Clause.Name, c.Key, ac.Clause.Props, c.Props)
 			}
 		}
 	}
